@@ -80,6 +80,26 @@ type refFileOpts struct {
 	RawLeaves bool
 	CidV1     bool
 	Trickle   bool
+	// InlineLimit > 0 (with CidV1): blocks of at most that many bytes get identity CIDs, i.e. are inlined into their links
+	// (the importer's --inline option); the block is put into the store all the same
+	InlineLimit int
+}
+
+// inlineBuilder is a cid.Builder that inlines small blocks (identity multihash) and delegates the rest.
+type inlineBuilder struct {
+	base  cid.Builder
+	limit int
+}
+
+func (b inlineBuilder) Sum(data []byte) (cid.Cid, error) {
+	if len(data) <= b.limit {
+		return cid.Prefix{Version: 1, Codec: b.base.GetCodec(), MhType: mh.IDENTITY, MhLength: -1}.Sum(data)
+	}
+	return b.base.Sum(data)
+}
+func (b inlineBuilder) GetCodec() uint64 { return b.base.GetCodec() }
+func (b inlineBuilder) WithCodec(c uint64) cid.Builder {
+	return inlineBuilder{b.base.WithCodec(c), b.limit}
 }
 
 // refImportFile runs the reference importer over data into st.
@@ -91,6 +111,9 @@ func refImportFile(st *Store, data []byte, o refFileOpts) (cid.Cid, uint64, erro
 	params := helpers.DagBuilderParams{Maxlinks: o.Width, RawLeaves: o.RawLeaves, Dagserv: storeDAG{st}}
 	if o.CidV1 {
 		params.CidBuilder = v1Prefix()
+		if o.InlineLimit > 0 {
+			params.CidBuilder = inlineBuilder{v1Prefix(), o.InlineLimit}
+		}
 	}
 	db, err := params.New(spl)
 	if err != nil {
